@@ -458,11 +458,28 @@ def innermost_dznpy(exc: BaseException):
     return where
 
 
-def run_parse(text: str, route: str):
-    from dznpy.json_ast import DznJsonAst  # pylint: disable=import-outside-toplevel
+class AcceptedOnRetry(Exception):
+    """process() refused the document, and the same parser object asked again returned contents."""
+
+
+def run_parse(text: str, route: str, again: int = 0):
+    """Parse; with `again`, the same parser object is asked again after a refusal: a document that
+    holds an invalid out event must be refused every time."""
+    from dznpy.json_ast import DznJsonAst, DznJsonError  # pylint: disable=import-outside-toplevel
+    from dznpy.scoping import NamespaceIdsTypeError      # pylint: disable=import-outside-toplevel
     data = text.encode('utf-8') if route == 'bytes' else text
     with common.quiet():
-        return DznJsonAst(data).process()
+        inst = DznJsonAst(data)
+        try:
+            return inst.process()
+        except (DznJsonError, NamespaceIdsTypeError) as first:
+            for attempt in range(again):
+                try:
+                    inst.process()
+                except (DznJsonError, NamespaceIdsTypeError):
+                    continue
+                raise AcceptedOnRetry(f'attempt {attempt + 2}') from first
+            raise
 
 
 def judge(text: str, route: str, doc, case: dict, mutations: list, ns_depth=None) -> dict:
@@ -474,10 +491,26 @@ def judge(text: str, route: str, doc, case: dict, mutations: list, ns_depth=None
     res = {'violations': [], 'counts': {}}
     counts = res['counts']
     outcome = None
+    again = 2 if (ns_depth is None and (case.get('must_refuse') or
+                                        len(text) % 4 == 0)) else 0
     try:
-        got = run_parse(text, route)
+        got = run_parse(text, route, again)
+    except AcceptedOnRetry as exc:
+        counts['retries_on_same_parser'] = 1
+        flags = refusal_flags(doc)
+        outcome = 'DznJsonError'
+        if any(flags.values()):
+            res['violations'].append({
+                'mechanism': 'out-event-accepted:on-retry-of-the-same-parser',
+                'detail': {'attempt': str(exc), 'mutations': mutations, 'route': route,
+                           'flags': {k: v[:3] for k, v in flags.items() if v}},
+                'case': case})
+        else:
+            counts['unspecified_refused_document_accepted_on_retry'] = 1
     except DznJsonError as exc:
         outcome = 'DznJsonError'
+        if again:
+            counts['retries_on_same_parser'] = 1
         ctx = str(exc).split(':', 1)[0]
         counts['rejected_in_' + (ctx if ctx.startswith('parse_') else 'other')] = 1
         res['message'] = str(exc)[:200]
